@@ -41,5 +41,7 @@ def plan(exp, tier):
     p.add_unit('c06', u, ['vec', 'mat'])
     p.notes.append('inverted4_mirror / det4_code_shape are proof artifacts mirroring mat.rs at callee-contract granularity; '
                    'Verus checks them against the real bodies, z3 proves them equal to adj/det and the cofactor expansion')
-    p.not_decided += ['inverted_affine_transform_no_scale / inverted_affine_transform (rigid and TRS fast inverses): not yet under contract']
+    p.not_decided += ['inverted_affine_transform on matrices whose squared column lengths are within epsilon of zero (the code substitutes 1 there; '
+                      'contracted literally, no inverse theorem)',
+                      'the right-inverse half of the rigid theorem takes R R^T = I as a hypothesis next to R^T R = I (equivalent for square R; keeps the goal polynomial)']
     return p
